@@ -80,9 +80,32 @@ type Result struct {
 	MaxTrail     int
 	Reached      map[string]int
 	FuncsTouched map[string]FuncInfo
+	PathSamples  []PathSample // completed paths with concrete inputs, for the native cross-check
+}
+
+// PathSample is one completed, violation-free path made concrete: a model of its path condition as replay
+// input plus a digest of what the harness did on it (every nd.Assert and nd.Reach executed: their number and
+// the order-insensitive sum of the hashes of their ids). The native run of the harness on these inputs must
+// finish without a failed assertion and with the same digest - a differential test of the engine (SSA
+// interpreter, library models, solver encoding) against the compiled code.
+type PathSample struct {
+	Values map[string]uint64
+	Sum    uint64
+	N      int
+}
+
+func traceHash(kind, id string) uint64 {
+	h := uint64(1469598103934665603)
+	for _, c := range []byte(kind + id) {
+		h = (h ^ uint64(c)) * 1099511628211
+	}
+	return h
 }
 
 type Machine struct {
+	MaxSamples int // how many paths this process may sample (0 = none)
+	sampled    int
+	pathsSeen  int
 	i       *interpreter
 	prog    *ssa.Program
 	inits   []*ssa.Function
@@ -182,8 +205,21 @@ func (m *Machine) Explore(fn *ssa.Function) *Result {
 		m.i.nontrivial = false
 		m.i.panicStack = ""
 		m.i.locks = newLockState()
+		m.i.traceSum, m.i.traceN, m.i.noSample = 0, 0, false
 		m.resetGlobals()
+		nviol := len(violations)
 		outcome := m.runOnce(fn)
+		m.pathsSeen++
+		if outcome == nil && len(violations) == nviol && !m.i.noSample && !x.usedPar && m.sampled < m.MaxSamples && m.pathsSeen&(m.pathsSeen-1) == 0 {
+			// the 1st, 2nd, 4th, 8th ... path of this process: make it concrete
+			x.flush()
+			if len(violations) == nviol {
+				if sat, model := x.checkSat("true"); sat {
+					m.sampled++
+					res.PathSamples = append(res.PathSamples, PathSample{Values: replayValues(x, model), Sum: m.i.traceSum, N: m.i.traceN})
+				}
+			}
+		}
 		switch o := outcome.(type) {
 		case nil:
 		case pathInfeasible:
@@ -577,6 +613,7 @@ func init() {
 		},
 		ndPath + ".Section": func(fr *frame, args []value) value {
 			// run the closure once, recording every access to a tracked cell with the locks held
+			fr.i.noSample = true
 			fr.i.locks.cur = args[0].(string)
 			defer func() { fr.i.locks.cur = "" }()
 			call(fr.i, fr, token.NoPos, args[1], nil)
@@ -584,6 +621,7 @@ func init() {
 		},
 		ndPath + ".SectionSetup": func(fr *frame, args []value) value {
 			// the preparation step runs outside any recorded section
+			fr.i.noSample = true
 			call(fr.i, fr, token.NoPos, args[1], nil)
 			fr.i.locks.cur = args[0].(string)
 			defer func() { fr.i.locks.cur = "" }()
@@ -659,6 +697,8 @@ func ndAssume(fr *frame, args []value) value {
 
 func ndAssert(fr *frame, args []value) value {
 	id := args[1].(string)
+	fr.i.traceSum += traceHash("A:", id)
+	fr.i.traceN++
 	switch c := args[0].(type) {
 	case bool:
 		fr.i.obligations++
@@ -719,6 +759,8 @@ func (i *interpreter) decideAsserts(p []pendingAssert) {
 }
 
 func ndReach(fr *frame, args []value) value {
+	fr.i.traceSum += traceHash("R:", args[0].(string))
+	fr.i.traceN++
 	reached[args[0].(string)]++
 	return nil
 }
